@@ -522,9 +522,19 @@ def run(ctx):
     n_vi = 0
     for q_, f_ in sorted(m.functions.items()):
         for x_ in ast.walk(f_):
-            if not (isinstance(x_, ast.Subscript) and isinstance(x_.ctx, ast.Load) and unparse(x_.value).endswith('.argnlist')
-                    and isinstance(x_.slice, ast.Name)):
+            if not (isinstance(x_, ast.Subscript) and isinstance(x_.ctx, ast.Load) and isinstance(x_.slice, ast.Name)):
                 continue
+            if not unparse(x_.value).endswith('.argnlist'):
+                # a local bound once to `<y>.argnlist` (`argnlist = nodeargd.argnlist; ... argnlist[k]`)
+                if not isinstance(x_.value, ast.Name):
+                    continue
+                bs_ = [a_ for a_ in ast.walk(f_) if isinstance(a_, (ast.Assign, ast.AugAssign, ast.For, ast.NamedExpr, ast.withitem))
+                       and any(isinstance(n_, ast.Name) and n_.id == x_.value.id and isinstance(n_.ctx, ast.Store)
+                               for n_ in ast.walk(a_))]
+                if not (len(bs_) == 1 and isinstance(bs_[0], ast.Assign) and len(bs_[0].targets) == 1
+                        and isinstance(bs_[0].targets[0], ast.Name) and isinstance(bs_[0].value, ast.Attribute)
+                        and bs_[0].value.attr == 'argnlist'):
+                    continue
             n_vi += 1
             V, k_ = unparse(x_.value), x_.slice.id
             atoms = set()
@@ -540,6 +550,46 @@ def run(ctx):
                        construct='%s: %s' % (q_, short(x_, 40)))
     if not n_vi:
         ctx.unknown('R07r', m, None, 'no variable index into an argument list found', construct='argument index')
+
+    # ---- R07s: the first word of a text that may have none
+    ctx.rule('R07s', 'latex2text takes no element by number out of a whitespace split (`x.split()[0]`, `x.split(None, 1)[0]`) '
+                     'unless the path has established that x holds a non-blank character (x.strip() true, or x true after x was '
+                     'stripped): for an empty or blank text the split is the empty list and IndexError escapes latex_to_text '
+                     '(the blank between two constructs is such a text) (exercised on a built-in example on every run)', 1)
+
+    def _ws_split_index(fnode_):
+        stripped_ = {a_.targets[0].id for a_ in iter_own(fnode_) if isinstance(a_, ast.Assign) and len(a_.targets) == 1
+                     and isinstance(a_.targets[0], ast.Name) and isinstance(a_.value, ast.Call)
+                     and call_name(a_.value) == 'strip' and not a_.value.args}
+        for x_ in iter_own(fnode_):
+            if not (isinstance(x_, ast.Subscript) and isinstance(x_.ctx, ast.Load) and isinstance(x_.slice, ast.Constant)
+                    and isinstance(x_.slice.value, int) and isinstance(x_.value, ast.Call) and call_name(x_.value) == 'split'
+                    and call_recv(x_.value) is not None
+                    and (not x_.value.args or (isinstance(x_.value.args[0], ast.Constant) and x_.value.args[0].value is None))):
+                continue
+            r_ = unparse(call_recv(x_.value))
+            atoms_ = set()
+            for t_, p_ in list(atomic_facts(x_)) + list(_scf7(x_)):
+                for a_, ap_ in symex._atoms(t_, p_):
+                    atoms_.add((unparse(a_), ap_))
+            ok_ = (r_ + '.strip()', True) in atoms_ or ((r_, True) in atoms_ and r_ in stripped_) or \
+                ('not ' + r_ + '.strip()', False) in atoms_
+            yield x_, r_, ok_
+    ex7_ = ast.parse('def f(x, col):\n    x = x.strip()\n    if col > 3 and len(x.split(None, 1)[0]) > 2:\n        return 1\n    return 0\n')
+    core.set_parents(ex7_)
+    if [ok_ for _x, _r, ok_ in _ws_split_index(ex7_.body[0])] != [False]:
+        raise AnalysisError('R07s: the whitespace-split rule no longer fires on its built-in example')
+    for mn_, mod_ in sorted(repo.modules.items()):
+        if not mn_.startswith('pylatexenc.latex2text'):
+            continue
+        for q_, f_ in sorted(mod_.functions.items()):
+            for x_, r_, ok_ in _ws_split_index(f_):
+                ctx.decide('R07s', ok_, mod_, x_, '%s: %s under a non-blank test of %s' % (q_, short(x_, 40), r_),
+                           '%s reads %s where nothing establishes that %s contains a non-blank character: for an empty text '
+                           '(a whitespace-only chars node after stripping) the split is [] and IndexError escapes latex_to_text'
+                           % (q_, short(x_, 40), r_), construct='%s: %s' % (q_, short(x_, 40)))
+    ctx.holds('R07s', m, None, 'no unguarded element of a whitespace split in latex2text (built-in example flagged)',
+              construct='whitespace split scan', trivial=True)
 
     # ---- R07p: None entries of a node list
     ctx.rule('R07p', 'nodelist_to_text: the element of the list (which may be None: replacement callables pass [optarg] for an '
